@@ -64,8 +64,8 @@ theorem pres_foldRes (w : World) (f : Nat → St → Res) (hf : ∀ k, Pres w (f
       obtain ⟨h1, h2⟩ := pres_foldRes w f hf ks s1 s' h hfl
       obtain ⟨h3, h4⟩ := hf k s s1 hk h1
       exact ⟨h3, fun hi => h2 (h4 hi)⟩
-    | err => simp [hk] at h
-    | panic => simp [hk] at h
+    | err _ => simp [hk] at h
+    | panic _ => simp [hk] at h
     | outOfFuel => simp [hk] at h
 
 /-- the step that runs the backtrack callbacks: this is where `TextIsGlobal` is needed -/
@@ -116,7 +116,21 @@ theorem unvisit_inv (w : World) (hT : TextIsGlobal w) (t : Text) (o : Obj) (n : 
         simp only [List.mem_filter] at hm
         exact hp t' m hm.1
 
-theorem valueOf_designates (w : World) (tgt : Obj) (tn : Node) (s : St) (v : Obj)
+/-- a copy (of a reference) designates what its original designates -/
+theorem designates_copy (w : World) (hC : CopyOK w) (c r : Obj) (n : Node) (hn : w.node c = some n)
+    (ho : n.orig = some r) (t : Text) (hrn : n.ref = some t) (f : Nat) (v : Obj)
+    (h : designates w f r = some v) : designates w f c = some v := by
+  obtain ⟨nr, hnr, h1, h2, h3⟩ := hC c n r hn ho
+  cases f with
+  | zero => simp [designates] at h
+  | succ f =>
+    have hrr : nr.ref = some t := by rw [h1]; exact hrn
+    simp only [designates, hnr, hrr] at h
+    simp only [designates, hn, hrn]
+    rw [← h2, ← h3]
+    exact h
+
+theorem valueOf_designates (w : World) (hC : CopyOK w) (tgt : Obj) (tn : Node) (s : St) (v : Obj)
     (htn : w.node tgt = some tn) (hg : Good w s) (h : valueOf w tgt s = some v) :
     ∃ f, designates w f tgt = some v := by
   unfold valueOf at h
@@ -125,8 +139,20 @@ theorem valueOf_designates (w : World) (tgt : Obj) (tn : Node) (s : St) (v : Obj
     simp [htn, hrt] at h; subst h
     exact ⟨1, by simp [designates, htn, hrt]⟩
   | some t' =>
-    simp [htn, hrt] at h
-    exact hg _ _ (get_mem _ _ _ h)
+    simp only [htn, Option.bind_some, hrt] at h
+    unfold getC at h
+    cases hg1 : s.get tgt with
+    | some v1 =>
+      simp only [hg1, Option.some.injEq] at h; subst h
+      exact hg _ _ (get_mem _ _ _ hg1)
+    | none =>
+      simp only [hg1, htn, Option.bind_some] at h
+      cases ho : tn.orig with
+      | none => simp [ho] at h
+      | some r =>
+        simp only [ho, Option.bind_some] at h
+        obtain ⟨f, hf⟩ := hg _ _ (get_mem _ _ _ h)
+        exact ⟨f, designates_copy w hC tgt r tn htn ho t' hrt f v hf⟩
 
 theorem pres_loadDoc (w : World) (rs : Loc → Nat → St → Res) (hrs : ∀ l k, Pres w (rs l k)) (d : Option Loc) :
     Pres w (loadDoc w rs d) := by
@@ -159,8 +185,8 @@ theorem finish_inv (w : World) (hT : TextIsGlobal w) (rs : Nat → St → Res) (
     simp only at h
     cases hf : foldRes rs (if rw = true then ((w.node v').map (·.kids)).getD [] else [])
         { s with value := s.value ++ [(o, v')] } with
-    | err => simp [hf] at h
-    | panic => simp [hf] at h
+    | err _ => simp [hf] at h
+    | panic _ => simp [hf] at h
     | outOfFuel => simp [hf] at h
     | ok s2 =>
       simp only [hf] at h
@@ -184,7 +210,7 @@ theorem finish_inv (w : World) (hT : TextIsGlobal w) (rs : Nat → St → Res) (
         (by intro v'' hv''; cases hv''; exact ⟨cx', tgt, tn, f, ht, htn, hk, hd⟩) h).2
 
 /-- Invariant preservation of the whole resolution, by induction on fuel. -/
-theorem resolve_pres (w : World) (hT : TextIsGlobal w) : ∀ fuel cx o, Pres w (resolve w fuel cx o) := by
+theorem resolve_pres (w : World) (hT : TextIsGlobal w) (hC : CopyOK w) : ∀ fuel cx o, Pres w (resolve w fuel cx o) := by
   intro fuel
   induction fuel with
   | zero => intro cx o s s' h; simp [resolve] at h
@@ -201,7 +227,7 @@ theorem resolve_pres (w : World) (hT : TextIsGlobal w) : ∀ fuel cx o, Pres w (
         exact pres_foldRes w _ (fun k => ih cx k) _ s s' h hfl
       | some t =>
         simp only [hr] at h
-        by_cases h1 : (s.get o).isSome = true
+        by_cases h1 : (getC w s o).isSome = true
         · rw [if_pos h1] at h; cases h; exact ⟨hfl, id⟩
         · rw [if_neg h1] at h
           by_cases h2 : s.inprog.contains t = true
@@ -215,8 +241,8 @@ theorem resolve_pres (w : World) (hT : TextIsGlobal w) : ∀ fuel cx o, Pres w (
           · rw [if_neg h2] at h
             cases hr1 : loadDoc w (fun l k s => resolve w fuel l k s) (w.docOf cx t)
                 { s with inprog := s.inprog ++ [t], foreign := s.foreign || (cx != n.home) } with
-            | err => simp [hr1] at h
-            | panic => simp [hr1] at h
+            | err _ => simp [hr1] at h
+            | panic _ => simp [hr1] at h
             | outOfFuel => simp [hr1] at h
             | ok s2 =>
               simp only [hr1] at h
@@ -244,15 +270,15 @@ theorem resolve_pres (w : World) (hT : TextIsGlobal w) : ∀ fuel cx o, Pres w (
                         exact ⟨cx', tgt, tn, hd.choose, hcx ▸ ht, htn, hk, hd.choose_spec⟩
                       · rw [if_neg hpi] at h
                         cases hres : resolve w fuel cx' tgt s2 with
-                        | err => simp [hres] at h
-                        | panic => simp [hres] at h
+                        | err _ => simp [hres] at h
+                        | panic _ => simp [hres] at h
                         | outOfFuel => simp [hres] at h
                         | ok s3 =>
                           simp only [hres] at h
                           obtain ⟨a, b⟩ := finish_inv w hT _ (fun k => ih cx k) t o n _ (valueOf w tgt s3) s3 s' hn hr h hfl
                           obtain ⟨c, d⟩ := ih cx' tgt s2 s3 hres a
                           refine ⟨c, fun hcx hi => b (d hi) (fun v' hv' => ?_)⟩
-                          obtain ⟨f, hf⟩ := valueOf_designates w tgt tn s3 v' htn (d hi).1 hv'
+                          obtain ⟨f, hf⟩ := valueOf_designates w hC tgt tn s3 v' htn (d hi).1 hv'
                           exact ⟨cx', tgt, tn, f, hcx ▸ ht, htn, hk, hf⟩
                     · simp [hk] at h
               obtain ⟨k1, k2⟩ := key
